@@ -714,6 +714,8 @@ class ToolScenario:
         self.nets = nets
         self.available_vms = {"vm1": "only CentOS\n", "vm2": "only Win10\n", "vm3": "only Ubuntu\n"}
         self.vm_strs = vm_strs if vm_strs is not None else dict(self.available_vms)
+        # the command line parser derives both from the same restrictions: a selected vm is available as selected
+        self.available_vms.update(self.vm_strs)
         self.params = params or {}
         self.vms_params = vms_params or {}
         self.tag = tag
